@@ -331,6 +331,7 @@ const SLACK_PROBE: u64 = 1_000_000;
 pub fn f_consumers(seed: u64, cancel: bool) -> Plan {
     let mut rng = Rng::new(seed);
     let mut plan = Plan { seed, family: "consumers".into(), final_drain: true, health_probe: true, ..Default::default() };
+    plan.tags.push("double_audit".into());
     plan.knobs = knobs(&mut rng, false, 0);
     if plan.knobs.site_mask != 0 {
         plan.knobs.yield_permille = *rng.pick(&[300u32, 500, 700]);
@@ -465,5 +466,551 @@ pub fn f_delete(seed: u64, burst: bool) -> Plan {
     }
     plan.phases.push(Phase { scripts, advance_us: 0, audit: true });
     plan.phases.push(Phase { scripts: vec![vec![Step::new(Op::GetSub { sub: victim.clone() }), Step::new(Op::Publish { topic: topic.clone(), msgs: msgs(&mut rng, 1, false) })]], advance_us: 0, audit: true });
+    plan
+}
+
+// ------------------------------------------------------------------------------------------------
+// F-push: push subscriptions against the scripted endpoint.
+// ------------------------------------------------------------------------------------------------
+
+pub fn f_push(seed: u64, exhaustive_scripts: bool) -> Plan {
+    let mut rng = Rng::new(seed);
+    let interval = *rng.pick(&[100u32, 1000, 5000]);
+    let mut plan = Plan { seed, family: "push".into(), final_drain: false, health_probe: true, ..Default::default() };
+    plan.tags.push("push".into());
+    plan.knobs = knobs(&mut rng, false, interval);
+    let topic = topic_name("proj-p", 0);
+    let n_push = rng.range(1, 3) as usize;
+    let dl = *rng.pick(&[10i32, 10, 12, 20]);
+    let mut setup = vec![Step::new(Op::CreateTopic { topic: topic.clone() })];
+    let mut push_subs = Vec::new();
+    for j in 0..n_push {
+        let name = sub_name("proj-p", 0, j);
+        let mut attrs = std::collections::BTreeMap::new();
+        if rng.chance(300) {
+            attrs.insert("x-goog-version".to_string(), "v1".to_string());
+        }
+        setup.push(Step::new(Op::CreateSub {
+            sub: name.clone(),
+            topic: topic.clone(),
+            ack_deadline: dl,
+            push: Some(PushSpec { endpoint: format!("http://push-{j}.test/hook"), attrs, oidc: if rng.chance(200) { Some(("aud".into(), "sa@example.test".into())) } else { None } }),
+        }));
+        push_subs.push(name);
+    }
+    // pull subscriptions on the same topic as controls (must never be POSTed to)
+    let n_pull = rng.range(0, 2) as usize;
+    for j in 0..n_pull {
+        setup.push(Step::new(Op::CreateSub { sub: sub_name("proj-p", 0, 10 + j), topic: topic.clone(), ack_deadline: 10, push: None }));
+    }
+    plan.phases.push(Phase { scripts: vec![setup], advance_us: rng.below(900_000), audit: false });
+    // endpoint behaviour
+    let all: Vec<Behaviour> = vec![
+        Behaviour::Status(102),
+        Behaviour::Status(200),
+        Behaviour::Status(201),
+        Behaviour::Status(202),
+        Behaviour::Status(204),
+        Behaviour::Status(100),
+        Behaviour::Status(203),
+        Behaviour::Status(205),
+        Behaviour::Status(301),
+        Behaviour::Status(400),
+        Behaviour::Status(404),
+        Behaviour::Status(429),
+        Behaviour::Status(500),
+        Behaviour::Status(503),
+        Behaviour::ConnErr,
+        Behaviour::Delay(rng.range(1, 900), 200),
+        Behaviour::Delay(rng.range(1, 900), 500),
+        Behaviour::Delay((dl as u64) * 1000 + rng.range(200, 3000), 200),
+        Behaviour::Never,
+    ];
+    if exhaustive_scripts {
+        // one explicit per-attempt script of length 1..3 over the 8 behaviour classes
+        let classes: Vec<Behaviour> = vec![
+            Behaviour::Status(*rng.pick(&[102u16, 200, 201, 202, 204])),
+            Behaviour::Status(*rng.pick(&[100u16, 101, 203, 205, 206])),
+            Behaviour::Status(*rng.pick(&[300u16, 301, 304])),
+            Behaviour::Status(*rng.pick(&[400u16, 404, 429])),
+            Behaviour::Status(*rng.pick(&[500u16, 502, 503])),
+            Behaviour::ConnErr,
+            Behaviour::Delay(rng.range(1, 900), *rng.pick(&[200u16, 500])),
+            if rng.chance(500) { Behaviour::Never } else { Behaviour::Delay((dl as u64) * 1000 + rng.range(200, 3000), 200) },
+        ];
+        let len = rng.range(1, 3);
+        let script: Vec<Behaviour> = (0..len).map(|_| rng.pick(&classes).clone()).collect();
+        plan.endpoint = EndpointPlan { palette: vec![], fault_attempts: 0, script, after: None };
+    } else {
+        let k = rng.range(2, 6) as usize;
+        let palette: Vec<Behaviour> = (0..k).map(|_| rng.pick(&all).clone()).collect();
+        plan.endpoint = EndpointPlan { palette, fault_attempts: rng.range(0, 4) as u32, script: vec![], after: None };
+    }
+    // publish phases with clock jumps across rounds and leases
+    let n_msgs_total = if exhaustive_scripts { rng.range(1, 2) } else { rng.range(1, 20) };
+    let mut left = n_msgs_total;
+    let n_phases = rng.range(1, 3);
+    let mut deleted: Option<String> = None;
+    for ph in 0..n_phases {
+        let mut scripts = Vec::new();
+        let n = if ph + 1 == n_phases { left } else { rng.range(0, left) };
+        left -= n;
+        if n > 0 {
+            scripts.push(vec![Step::after(rng.below(200_000), Op::Publish { topic: topic.clone(), msgs: msgs(&mut rng, n as usize, true) })]);
+        }
+        if !exhaustive_scripts && deleted.is_none() && rng.chance(150) {
+            let victim = rng.pick(&push_subs).clone();
+            deleted = Some(victim.clone());
+            scripts.push(vec![Step::after(rng.below(3_000_000), Op::DeleteSub { sub: victim })]);
+        }
+        if n_pull > 0 && rng.chance(500) {
+            scripts.push(vec![Step::after(rng.below(500_000), Op::Pull { sub: sub_name("proj-p", 0, 10), max: 100, immediate: true }), Step::new(Op::Ack { sub: sub_name("proj-p", 0, 10), sel: sel_mine(Pick::LastResponse) })]);
+        }
+        let advance = *rng.pick(&[interval as u64 * 1000 + 50_000, 2 * interval as u64 * 1000, (dl as u64) * 1_000_000 + 1_500_000, 3_000_000, 30_000_000]);
+        plan.phases.push(Phase { scripts, advance_us: advance, audit: true });
+    }
+    // faults off, then wait long enough for every unaccepted message to be POSTed and accepted
+    plan.phases.push(Phase { scripts: vec![vec![Step::new(Op::EndpointFaultsOff)]], advance_us: interval as u64 * 1000 + (dl as u64) * 1_000_000 + 4_000_000, audit: true });
+    plan.phases.push(Phase { scripts: vec![], advance_us: interval as u64 * 1000 * 2 + 1_000_000, audit: true });
+    plan
+}
+
+// ------------------------------------------------------------------------------------------------
+// F-listing: build a resource set through a create/delete history, then walk the List RPCs.
+// ------------------------------------------------------------------------------------------------
+
+pub fn f_listing(seed: u64, big: bool) -> Plan {
+    let mut rng = Rng::new(seed);
+    let mut plan = Plan { seed, family: "listing".into(), final_drain: false, health_probe: false, ..Default::default() };
+    plan.knobs = knobs(&mut rng, false, 0);
+    let projects: Vec<String> = (0..rng.range(1, 3)).map(|i| format!("proj-list-{i}")).collect();
+    let n_topics = if big { rng.range(990, 1030) } else { *rng.pick(&[0u64, 1, 2, 3, 5, 19, 20, 21, 22, 40, 41]) } as usize;
+    let n_subs = if big { rng.range(0, 30) } else { *rng.pick(&[0u64, 1, 2, 5, 19, 20, 21, 30]) } as usize;
+    let mut topics: Vec<String> = Vec::new();
+    let mut creator: Vec<Step> = Vec::new();
+    for i in 0..n_topics {
+        let p = rng.pick(&projects).clone();
+        let t = format!("projects/{p}/topics/t-{i}");
+        creator.push(Step::new(Op::CreateTopic { topic: t.clone() }));
+        topics.push(t);
+    }
+    let mut subs: Vec<(String, String)> = Vec::new();
+    if !topics.is_empty() {
+        // most subscriptions on few topics so that ListTopicSubscriptions has something to page
+        let hot: Vec<String> = (0..rng.range(1, 2)).map(|_| rng.pick(&topics).clone()).collect();
+        for j in 0..n_subs {
+            let t = if rng.chance(800) { rng.pick(&hot).clone() } else { rng.pick(&topics).clone() };
+            let p = project_of_name(&t);
+            let s = format!("projects/{p}/subscriptions/s-{j}");
+            creator.push(Step::new(Op::CreateSub { sub: s.clone(), topic: t.clone(), ack_deadline: 10, push: None }));
+            subs.push((s, t));
+        }
+    }
+    // deletions in drawn order (then the order of the survivors is what matters)
+    let mut deleter: Vec<Step> = Vec::new();
+    let mut gone_topics: Vec<String> = Vec::new();
+    for (s, _t) in subs.iter() {
+        if rng.chance(200) {
+            deleter.push(Step::new(Op::DeleteSub { sub: s.clone() }));
+        }
+    }
+    for t in topics.iter() {
+        if rng.chance(if big { 20 } else { 150 }) {
+            deleter.push(Step::new(Op::DeleteTopic { topic: t.clone() }));
+            gone_topics.push(t.clone());
+        }
+    }
+    // a few re-creations under the same name (they move to the end of creation order)
+    let mut recreate: Vec<Step> = Vec::new();
+    for t in gone_topics.iter() {
+        if rng.chance(400) {
+            recreate.push(Step::new(Op::CreateTopic { topic: t.clone() }));
+        }
+    }
+    // concurrent creators in some plans: split the creator script in two
+    if rng.chance(300) && creator.len() > 4 && !big {
+        let half = creator.len() / 2;
+        // only topics in the first half may be split off safely (subs need their topic first)
+        let second: Vec<Step> = creator.split_off(half);
+        plan.phases.push(Phase { scripts: vec![creator], advance_us: 0, audit: false });
+        let (a, b): (Vec<Step>, Vec<Step>) = second.into_iter().enumerate().fold((vec![], vec![]), |mut acc, (i, s)| {
+            if i % 2 == 0 {
+                acc.0.push(s)
+            } else {
+                acc.1.push(s)
+            }
+            acc
+        });
+        plan.phases.push(Phase { scripts: vec![a, b], advance_us: 0, audit: false });
+    } else {
+        plan.phases.push(Phase { scripts: vec![creator], advance_us: 0, audit: false });
+    }
+    plan.phases.push(Phase { scripts: vec![deleter], advance_us: 0, audit: false });
+    plan.phases.push(Phase { scripts: vec![recreate], advance_us: 0, audit: false });
+    // the walks, with background data-plane traffic on the same topic actors
+    let sizes: Vec<i32> = vec![-1, i32::MIN, 0, 1, 2, 19, 20, 21, 999, 1000, 1001, i32::MAX, n_topics as i32 - 1, n_topics as i32, n_topics as i32 + 1, n_subs.max(1) as i32];
+    let mut walker: Vec<Step> = Vec::new();
+    let n_walks = if big { 3 } else { rng.range(3, 8) };
+    for _ in 0..n_walks {
+        let size = *rng.pick(&sizes);
+        let size = if big && size >= 0 && size < 100 { 1000 } else { size };
+        match rng.below(3) {
+            0 => walker.push(Step::new(Op::Walk { kind: ListKind::Topics, parent: format!("projects/{}", rng.pick(&projects)), page_size: size })),
+            1 => walker.push(Step::new(Op::Walk { kind: ListKind::Subs, parent: format!("projects/{}", rng.pick(&projects)), page_size: size })),
+            _ => {
+                if let Some((_, t)) = subs.first() {
+                    let t = if rng.chance(700) { t.clone() } else { rng.pick(&topics).clone() };
+                    walker.push(Step::new(Op::Walk { kind: ListKind::TopicSubs, parent: t, page_size: size }));
+                } else if !topics.is_empty() {
+                    walker.push(Step::new(Op::Walk { kind: ListKind::TopicSubs, parent: rng.pick(&topics).clone(), page_size: size }));
+                }
+            }
+        }
+    }
+    // forged / hostile tokens
+    let tokens: Vec<String> = {
+        use base64::Engine;
+        let enc = |v: u64| base64::engine::general_purpose::STANDARD.encode(v.to_ne_bytes());
+        vec![
+            enc(0),
+            enc(1),
+            enc(rng.below(50)),
+            enc(n_topics as u64),
+            enc(n_topics as u64 + 1),
+            enc(u64::MAX),
+            enc(u64::MAX - 1),
+            enc(1 << 40),
+            "!!!not-base64!!!".to_string(),
+            "AAAA".to_string(),
+            base64::engine::general_purpose::STANDARD.encode([1u8, 2, 3, 4, 5, 6, 7, 8, 9]),
+            base64::engine::general_purpose::STANDARD.encode(rng.next().to_ne_bytes()),
+            "AAAAAAAAAAA".to_string(),
+            " ".to_string(),
+            "ÅÄÖ".to_string(),
+        ]
+    };
+    for _ in 0..rng.range(2, 6) {
+        let kind = match rng.below(3) {
+            0 => ListKind::Topics,
+            1 => ListKind::Subs,
+            _ => ListKind::TopicSubs,
+        };
+        let parent = match kind {
+            ListKind::TopicSubs => {
+                if topics.is_empty() {
+                    continue;
+                }
+                subs.first().map(|x| x.1.clone()).unwrap_or_else(|| topics[0].clone())
+            }
+            _ => format!("projects/{}", rng.pick(&projects)),
+        };
+        walker.push(Step::new(Op::ListPage { kind, parent, page_size: *rng.pick(&[0i32, 1, 5, 20, 1000, 5000, -3]), token: rng.pick(&tokens).clone() }));
+    }
+    let mut scripts = vec![walker];
+    if !subs.is_empty() && rng.chance(600) {
+        let (s, t) = subs[0].clone();
+        let mut traffic = Vec::new();
+        for _ in 0..rng.range(2, 10) {
+            traffic.push(Step::new(Op::Publish { topic: t.clone(), msgs: msgs(&mut rng, 2, false) }));
+            traffic.push(Step::new(Op::Pull { sub: s.clone(), max: 10, immediate: true }));
+        }
+        scripts.push(traffic);
+    }
+    plan.phases.push(Phase { scripts, advance_us: 0, audit: false });
+    plan
+}
+
+fn project_of_name(name: &str) -> String {
+    name.strip_prefix("projects/").and_then(|r| r.split('/').next()).unwrap_or("").to_string()
+}
+
+// ------------------------------------------------------------------------------------------------
+// F-names: concurrent create/get/list/delete (+ data plane) over a small pool of names.
+// ------------------------------------------------------------------------------------------------
+
+pub fn f_names(seed: u64, contention: u64, abandon: bool) -> Plan {
+    let mut rng = Rng::new(seed);
+    let mut plan = Plan { seed, family: "names".into(), final_drain: true, health_probe: true, ..Default::default() };
+    plan.tags.push("names".into());
+    plan.tags.push("audit_lists".into());
+    plan.knobs = knobs(&mut rng, true, 0);
+    let projects = ["proj-n", "proj-m"];
+    let n_t = rng.range(2, 3) as usize;
+    let n_s = rng.range(2, 3) as usize;
+    let topic_pool: Vec<String> = (0..n_t).map(|i| format!("projects/{}/topics/pool-topic-{}", projects[i % 2], i)).collect();
+    let sub_pool: Vec<String> = (0..n_s).map(|i| format!("projects/{}/subscriptions/pool-sub-{}", projects[i % 2], i)).collect();
+    // every CreateSubscription asks for its own ack deadline, so that the instance a read saw is identifiable
+    let mut next_deadline = 11i32;
+    let n_phases = rng.range(1, 4);
+    for _ in 0..n_phases {
+        let n_clients = if contention == 0 { 1 } else { rng.range(2, 2 + contention.min(4)) };
+        let mut scripts = Vec::new();
+        for _ in 0..n_clients {
+            let mut s = Vec::new();
+            for _ in 0..rng.range(2, 7) {
+                let t = rng.pick(&topic_pool).clone();
+                let sub = rng.pick(&sub_pool).clone();
+                let op = match rng.below(20) {
+                    0..=2 => Op::CreateTopic { topic: t },
+                    3 | 4 => Op::DeleteTopic { topic: t },
+                    5 => Op::GetTopic { topic: t },
+                    6..=8 => {
+                        let dl = next_deadline;
+                        next_deadline += 1;
+                        let push = if rng.chance(150) { Some(PushSpec { endpoint: " http://names.test/push ".into(), attrs: [("k".to_string(), "v".to_string())].into_iter().collect(), oidc: Some(("a".into(), "e@x.test".into())) }) } else { None };
+                        Op::CreateSub { sub, topic: t, ack_deadline: dl, push }
+                    }
+                    9 | 10 => Op::DeleteSub { sub },
+                    11 | 12 => Op::GetSub { sub },
+                    13 => Op::Publish { topic: t, msgs: msgs(&mut rng, 1, false) },
+                    14 => Op::Pull { sub, max: 10, immediate: true },
+                    15 => Op::Ack { sub, sel: Sel { mine: false, pick: Pick::LastN(1), extra: vec!["77".into()] } },
+                    16 => Op::ModAck { sub, sel: Sel { mine: false, pick: Pick::LastN(1), extra: vec!["78".into()] }, secs: 15 },
+                    17 => Op::ListPage { kind: ListKind::Topics, parent: format!("projects/{}", rng.pick(&projects)), page_size: 1000, token: String::new() },
+                    18 => Op::ListPage { kind: ListKind::Subs, parent: format!("projects/{}", rng.pick(&projects)), page_size: 1000, token: String::new() },
+                    _ => Op::Walk { kind: ListKind::TopicSubs, parent: t, page_size: 1000 },
+                };
+                let mut st = Step::after(rng.below(3) * rng.below(300), op);
+                if abandon && plan.knobs.site_mask != 0 && rng.chance(40) {
+                    st.abandon_at = rng.range(1, 3) as u32;
+                }
+                s.push(st);
+            }
+            scripts.push(s);
+        }
+        plan.phases.push(Phase { scripts, advance_us: *rng.pick(&[0u64, 0, 1_000_000, 11_000_000]), audit: true });
+    }
+    plan
+}
+
+// ------------------------------------------------------------------------------------------------
+// F-cancel: every request kind dropped at its k-th real suspension, empty / saturated mailboxes.
+// ------------------------------------------------------------------------------------------------
+
+pub const CANCEL_KINDS: u64 = 14;
+
+pub fn f_cancel(seed: u64) -> Plan {
+    let mut rng = Rng::new(seed);
+    let mut plan = Plan { seed, family: "cancel".into(), final_drain: true, health_probe: true, ..Default::default() };
+    plan.tags.push("cancel".into());
+    plan.tags.push("audit_lists".into());
+    plan.knobs = knobs(&mut rng, false, 0);
+    let kind = rng.below(CANCEL_KINDS);
+    let k = *rng.pick(&[1u32, 1, 1, 1, 1, 1, 2, 2, 2, 2, 3, 3, 3, 4, 5, 6]);
+    let saturated = rng.chance(500);
+    plan.tags.push(format!("cancel_point:{kind}:{k}:{}", if saturated { "sat" } else { "idle" }));
+    let topic = topic_name("proj-x", 0);
+    let sub = sub_name("proj-x", 0, 0);
+    let other = sub_name("proj-x", 0, 1);
+    let fresh_topic = topic_name("proj-x", 7);
+    let fresh_sub = sub_name("proj-x", 0, 7);
+    // prefix workload
+    let mut setup = vec![
+        Step::new(Op::CreateTopic { topic: topic.clone() }),
+        Step::new(Op::CreateSub { sub: sub.clone(), topic: topic.clone(), ack_deadline: 10, push: None }),
+        Step::new(Op::CreateSub { sub: other.clone(), topic: topic.clone(), ack_deadline: 10, push: None }),
+    ];
+    setup.push(Step::new(Op::Publish { topic: topic.clone(), msgs: msgs_r(&mut rng, 1, 4, false) }));
+    if rng.chance(600) {
+        setup.push(Step::new(Op::Pull { sub: sub.clone(), max: 2, immediate: true }));
+    }
+    plan.phases.push(Phase { scripts: vec![setup], advance_us: rng.below(500_000), audit: false });
+    // the target request
+    let target_op = match kind {
+        0 => Op::CreateTopic { topic: fresh_topic.clone() },
+        1 => Op::DeleteTopic { topic: topic.clone() },
+        2 => Op::GetTopic { topic: topic.clone() },
+        3 => Op::CreateSub { sub: fresh_sub.clone(), topic: topic.clone(), ack_deadline: 10, push: if rng.chance(300) { Some(PushSpec { endpoint: "http://cancel.test/".into(), attrs: Default::default(), oidc: None }) } else { None } },
+        4 => Op::DeleteSub { sub: sub.clone() },
+        5 => Op::GetSub { sub: sub.clone() },
+        6 => Op::Publish { topic: topic.clone(), msgs: msgs_r(&mut rng, 1, 5, false) },
+        7 => Op::Pull { sub: sub.clone(), max: 10, immediate: true },
+        8 => Op::Pull { sub: sub.clone(), max: 10, immediate: false },
+        9 => Op::Ack { sub: sub.clone(), sel: sel_any(Pick::All) },
+        10 => Op::ModAck { sub: sub.clone(), sel: sel_any(Pick::All), secs: *rng.pick(&[0i32, 30]) },
+        11 => Op::Walk { kind: ListKind::TopicSubs, parent: topic.clone(), page_size: 10 },
+        12 => Op::ListPage { kind: ListKind::Subs, parent: "projects/proj-x".into(), page_size: 100, token: String::new() },
+        _ => Op::ListPage { kind: ListKind::Topics, parent: "projects/proj-x".into(), page_size: 100, token: String::new() },
+    };
+    let mut scripts: Vec<Vec<Step>> = Vec::new();
+    let mut target = Step::after(rng.below(3) * rng.below(200), target_op);
+    target.abandon_at = k;
+    // saturation: a burst at the actor the target talks to (topic actor for topic-side requests)
+    if saturated {
+        let n = rng.range(17, 30);
+        let topic_side = matches!(kind, 1 | 3 | 6 | 11);
+        for _ in 0..n {
+            let op = if topic_side {
+                match rng.below(3) {
+                    0 => Op::Publish { topic: topic.clone(), msgs: msgs(&mut rng, 1, false) },
+                    1 => Op::Walk { kind: ListKind::TopicSubs, parent: topic.clone(), page_size: 1000 },
+                    _ => Op::Publish { topic: topic.clone(), msgs: msgs(&mut rng, 2, false) },
+                }
+            } else {
+                match rng.below(3) {
+                    0 => Op::GetSub { sub: sub.clone() },
+                    1 => Op::Pull { sub: sub.clone(), max: 1, immediate: true },
+                    _ => Op::ModAck { sub: sub.clone(), sel: Sel { mine: false, pick: Pick::None, extra: vec!["4242".into()] }, secs: 10 },
+                }
+            };
+            scripts.push(vec![Step::new(op)]);
+        }
+        target.delay_us = 0;
+    } else {
+        for _ in 0..rng.range(0, 3) {
+            scripts.push(vec![Step::after(rng.below(300), Op::Publish { topic: topic.clone(), msgs: msgs(&mut rng, 1, false) })]);
+        }
+    }
+    let pos = rng.below(scripts.len() as u64 + 1) as usize;
+    scripts.insert(pos, vec![target]);
+    plan.phases.push(Phase { scripts, advance_us: rng.below(300_000), audit: true });
+    // after the drop: publish to the topic, pull both subscriptions, audit again
+    plan.phases.push(Phase {
+        scripts: vec![vec![
+            Step::new(Op::Publish { topic: topic.clone(), msgs: msgs(&mut rng, 1, false) }),
+            Step::new(Op::Pull { sub: other.clone(), max: 100, immediate: true }),
+            Step::new(Op::Pull { sub: fresh_sub.clone(), max: 100, immediate: true }),
+        ]],
+        advance_us: 0,
+        audit: true,
+    });
+    plan
+}
+
+// ------------------------------------------------------------------------------------------------
+// F-hostile: a normal workload with malformed requests at drawn positions.
+// ------------------------------------------------------------------------------------------------
+
+pub fn f_hostile(seed: u64) -> Plan {
+    let mut rng = Rng::new(seed);
+    let mut plan = Plan { seed, family: "hostile".into(), final_drain: true, health_probe: true, ..Default::default() };
+    plan.tags.push("hostile".into());
+    plan.knobs = knobs(&mut rng, false, 0);
+    let topic = topic_name("proj-h", 0);
+    let sub = sub_name("proj-h", 0, 0);
+    let sub2 = sub_name("proj-h", 0, 1);
+    plan.phases.push(Phase {
+        scripts: vec![vec![
+            Step::new(Op::CreateTopic { topic: topic.clone() }),
+            Step::new(Op::CreateSub { sub: sub.clone(), topic: topic.clone(), ack_deadline: 10, push: None }),
+            Step::new(Op::CreateSub { sub: sub2.clone(), topic: topic.clone(), ack_deadline: 10, push: None }),
+            Step::new(Op::Publish { topic: topic.clone(), msgs: msgs_r(&mut rng, 2, 5, false) }),
+            Step::new(Op::Pull { sub: sub.clone(), max: 100, immediate: true }),
+        ]],
+        advance_us: rng.below(400_000),
+        audit: false,
+    });
+    let bad_names: Vec<String> = vec![
+        String::new(),
+        "x".into(),
+        "topics/foo".into(),
+        "projects/".into(),
+        "projects/p".into(),
+        "projectsX/p/topics/t-long-enough-name".into(),
+        "Projects/p/topics/t-long-enough-name".into(),
+        " projects/p/topics/long-enough-name".into(),
+        "проекты/п/темы/очень-длинное-имя-ресурса".into(),
+        "projects".repeat(2000),
+        "/".repeat(40),
+        "projects-no-slash-but-long-enough-to-pass-len".into(),
+    ];
+    // near-miss names that deltio currently accepts or rejects in surprising ways (C18 territory):
+    // only "a status or OK, no panic, no hang" is demanded for them, and they live in their own project.
+    let odd_names: Vec<String> = vec![
+        "projects/odd/subscriptions/used-as-topic-name".into(),
+        "projects/odd/topics/abcdefghijklmnop".into(),
+        "projects/odd/topics/a/".into(),
+        "projects/odd//topics//x-long-enough".into(),
+        "projects/odd/topics/".into(),
+        "projects/odd/topic/é🚀-multibyte-boundary".into(),
+        "projects/odd/é/ü".into(),
+        "projects/é/topics/short".into(),
+        "projects/odd/topics/name with spaces and / slashes".into(),
+    ];
+    let bad_acks: Vec<String> = vec![String::new(), "abc".into(), "-1".into(), "1.5".into(), " 7".into(), "7 ".into(), "99999999999999999999999999".into(), "0x10".into(), "١٢٣".into()];
+    let odd_acks: Vec<String> = vec!["+5".into(), "0007".into(), "18446744073709551615".into(), "18446744073709551616".into()];
+    let mut scripts: Vec<Vec<Step>> = Vec::new();
+    let mut slot = 1u32;
+    for _ in 0..rng.range(1, 3) {
+        let mut s = Vec::new();
+        for _ in 0..rng.range(3, 9) {
+            let bad = rng.pick(&bad_names).clone();
+            let odd = rng.pick(&odd_names).clone();
+            let name = if rng.chance(650) { bad } else { odd };
+            let op = match rng.below(26) {
+                0 => Op::CreateTopic { topic: name },
+                1 => Op::DeleteTopic { topic: name },
+                2 => Op::GetTopic { topic: name },
+                3 => Op::Publish { topic: name, msgs: msgs(&mut rng, 1, false) },
+                4 => Op::CreateSub { sub: name, topic: topic.clone(), ack_deadline: 10, push: None },
+                5 => Op::CreateSub { sub: sub_name("proj-h", 0, 5), topic: name, ack_deadline: 10, push: None },
+                6 => Op::CreateSub { sub: sub_name("proj-h", 0, 6), topic: topic.clone(), ack_deadline: *rng.pick(&[i32::MIN, -1, i32::MAX]), push: None },
+                7 => Op::CreateSub { sub: sub_name("proj-h", 0, 8), topic: topic.clone(), ack_deadline: 10, push: Some(PushSpec { endpoint: rng.pick(&["ftp://x", "", "   ", "gopher://h/", "mailto:a@b"]).to_string(), attrs: Default::default(), oidc: None }) },
+                8 => Op::DeleteSub { sub: name },
+                9 => Op::GetSub { sub: name },
+                10 => Op::Pull { sub: name, max: 10, immediate: true },
+                11 => Op::Pull { sub: sub2.clone(), max: *rng.pick(&[0i32, -1, i32::MIN, 65536, 65537, i32::MAX]), immediate: true },
+                12 => Op::Ack { sub: name, sel: sel_any(Pick::LastN(1)) },
+                // one bad element at a drawn position of an otherwise valid batch
+                13 | 14 => {
+                    let mut ids: Vec<String> = Vec::new();
+                    let pos = rng.below(3);
+                    for i in 0..3 {
+                        if i == pos {
+                            ids.push(rng.pick(&bad_acks).clone());
+                        }
+                    }
+                    Op::Ack { sub: sub.clone(), sel: Sel { mine: false, pick: Pick::All, extra: ids } }
+                }
+                15 | 16 => Op::ModAck { sub: sub.clone(), sel: Sel { mine: false, pick: Pick::All, extra: vec![rng.pick(&bad_acks).clone()] }, secs: *rng.pick(&[0i32, 30]) },
+                17 => Op::ModAck { sub: sub.clone(), sel: sel_any(Pick::All), secs: *rng.pick(&[-1i32, i32::MIN]) },
+                18 => Op::Ack { sub: sub.clone(), sel: Sel { mine: false, pick: Pick::None, extra: vec![rng.pick(&odd_acks).clone()] } },
+                19 => Op::ListPage { kind: ListKind::Topics, parent: rng.pick(&["", "proj-h", "projects", "projectsproj-h", "projects/proj-h"]).to_string(), page_size: *rng.pick(&[-1i32, i32::MIN, 0, 5]), token: rng.pick(&["", "@@@", "AAAA", "AAAAAAAAAAA="]).to_string() },
+                20 => Op::ListPage { kind: ListKind::Subs, parent: "projects/proj-h".into(), page_size: *rng.pick(&[-7i32, 0, i32::MAX]), token: rng.pick(&["", "%%%", "AAAAAAAAAAAA", "AAAAAAAAAAA="]).to_string() },
+                21 => Op::ListPage { kind: ListKind::TopicSubs, parent: name, page_size: 10, token: String::new() },
+                22 => {
+                    let my = slot;
+                    slot += 1;
+                    Op::StreamOpen { slot: my, sub: name, max_msgs: 0, max_bytes: 0, policy: StreamPolicy::Hold }
+                }
+                23 => {
+                    let my = slot;
+                    slot += 1;
+                    Op::StreamOpen { slot: my, sub: sub2.clone(), max_msgs: *rng.pick(&[-1i64, 65536, i64::MAX, i64::MIN]), max_bytes: *rng.pick(&[0i64, -1, i64::MAX]), policy: StreamPolicy::Hold }
+                }
+                _ => Op::ModAck { sub: sub.clone(), sel: Sel { mine: false, pick: Pick::None, extra: vec![] }, secs: -5 },
+            };
+            s.push(Step::after(rng.below(2) * rng.below(500), op));
+        }
+        scripts.push(s);
+    }
+    // a stream that holds deliveries and then receives a bad control message
+    if rng.chance(600) {
+        let my = slot;
+        let hostile = match rng.below(5) {
+            0 => Op::StreamSend { slot: my, ack: Sel::none(), modack: Sel::none(), modack_secs: 0, raw_sub: sub2.clone(), raw_max_msgs: 0, raw_max_bytes: 0, extra_secs: vec![] },
+            1 => Op::StreamSend { slot: my, ack: Sel::none(), modack: Sel::none(), modack_secs: 0, raw_sub: String::new(), raw_max_msgs: 5, raw_max_bytes: 0, extra_secs: vec![] },
+            2 => Op::StreamSend { slot: my, ack: Sel::none(), modack: Sel::none(), modack_secs: 0, raw_sub: String::new(), raw_max_msgs: 0, raw_max_bytes: 9, extra_secs: vec![] },
+            3 => Op::StreamSend { slot: my, ack: Sel::none(), modack: sel_any(Pick::LastN(1)), modack_secs: 20, raw_sub: String::new(), raw_max_msgs: 0, raw_max_bytes: 0, extra_secs: vec![30] },
+            _ => Op::StreamSend { slot: my, ack: Sel { mine: false, pick: Pick::LastN(2), extra: vec![rng.pick(&bad_acks).clone()] }, modack: Sel::none(), modack_secs: 0, raw_sub: String::new(), raw_max_msgs: 0, raw_max_bytes: 0, extra_secs: vec![] },
+        };
+        let mut st = vec![Step::new(Op::StreamOpen { slot: my, sub: sub2.clone(), max_msgs: 0, max_bytes: 0, policy: StreamPolicy::Hold }), Step::after(rng.range(1_000, 50_000), hostile)];
+        // mark ack-id-hostile sends as hostile too (the harness flags raw_* and unequal lists itself)
+        if let Op::StreamSend { ack, .. } = &st[1].op {
+            if !ack.extra.is_empty() {
+                plan.tags.push("stream_bad_ack".into());
+            }
+        }
+        st.push(Step::after(100_000, Op::Nop));
+        scripts.push(st);
+    }
+    // valid traffic alongside
+    scripts.push(vec![
+        Step::new(Op::Publish { topic: topic.clone(), msgs: msgs_r(&mut rng, 1, 3, false) }),
+        Step::after(rng.below(2_000), Op::Pull { sub: sub2.clone(), max: 100, immediate: true }),
+        Step::new(Op::Ack { sub: sub2.clone(), sel: sel_mine(Pick::LastResponse) }),
+    ]);
+    plan.phases.push(Phase { scripts, advance_us: *rng.pick(&[0u64, 1_000_000, 11_000_000]), audit: true });
+    plan.phases.push(Phase { scripts: vec![vec![Step::new(Op::Pull { sub: sub.clone(), max: 100, immediate: true })]], advance_us: 0, audit: true });
     plan
 }
